@@ -26,7 +26,7 @@ import (
 	"kbverif/srcload"
 )
 
-var scopePrefixes = []string{"/pkg/backend", "/pkg/storage/memkv", "/pkg/storage/metrics", "/pkg/metrics/prometheus", "/pkg/server"}
+var scopePrefixes = []string{"/pkg/backend", "/pkg/storage/memkv", "/pkg/storage/metrics", "/pkg/storage/tikv", "/pkg/metrics/prometheus", "/pkg/server"}
 
 func inScope(p *types.Package) bool {
 	if p == nil || prog == nil {
@@ -448,6 +448,16 @@ func (w *walker) stmt(s ast.Stmt, h held) held {
 	case *ast.ReturnStmt:
 		for _, r := range x.Results {
 			w.expr(r, h, ctxRead)
+			// returning a slice or map that is held in a field hands out a reference that outlives the
+			// critical section: whatever the caller does with it is outside the lock
+			if se, ok := ast.Unparen(r).(*ast.SelectorExpr); ok {
+				if sel, ok := w.info.Selections[se]; ok && sel.Kind() == types.FieldVal {
+					switch sel.Type().Underlying().(type) {
+					case *types.Slice, *types.Map:
+						w.selectorEscape(se)
+					}
+				}
+			}
 		}
 		return h
 	case *ast.SendStmt:
@@ -1829,4 +1839,23 @@ func (w *walker) wholeStructWrite(st *ast.StarExpr, h held) {
 	for i := 0; i < str.NumFields(); i++ {
 		w.addSite(str.Field(i), st.Pos(), "KWr", phase, h, base, "*"+base+" = ... ("+str.Field(i).Name()+")")
 	}
+}
+
+// selectorEscape records the use of a returned field-held slice/map by the callers: an access of the
+// field's contents with no lock (KWr: the repository's callers sort and rewrite such slices in place)
+func (w *walker) selectorEscape(se *ast.SelectorExpr) {
+	sel := w.info.Selections[se]
+	fv, ok := sel.Obj().(*types.Var)
+	if !ok || !fv.IsField() {
+		return
+	}
+	phase := "PRun"
+	if root := rootIdent(se.X); root != nil {
+		if rv, ok := w.info.Uses[root].(*types.Var); ok {
+			if pub, ok := w.fresh[rv]; ok && se.Pos() < pub {
+				phase = "PInit"
+			}
+		}
+	}
+	w.addSite(fv, se.Sel.Pos(), "KWr", phase, held{}, exprPath(se.X), "returned reference to "+exprPath(se)+" (used by callers outside the lock)")
 }
